@@ -192,7 +192,7 @@ def _explore_class(sess, cname, summ, tier, known, prop):
     sess.paths += sum(m["paths"] for m in matrix.values())
     # ---- byte-level cross-check on the real, unpatched code
     if prop in ("C01", "C02"):
-        _native_crosscheck(sess, cname, natives, tier, known, summ)
+        _native_crosscheck(sess, cname, natives, tier, known, summ, prop)
 
 
 def prop_obligations(prop):
@@ -234,10 +234,14 @@ def nested_sample(summ, samples):
         key = (clsname, version)
         if key not in _NESTED_CACHE:
             cls = _resolve(clsname)
-            r = X.explore(cls, version, list_bound=1, max_paths=3000, first_accept=True)
+            # a well-formed instance of the nested class: a shape its own decoder accepts and its own
+            # encoder, parser and equality agree on (a nested shape that is itself a finding of the
+            # nested class must not be charged to the enclosing structure)
+            r = X.explore(cls, version, list_bound=1, max_paths=3000, first_accept='clean')
             if not r["accepted"]:
                 raise ValueError("no accepted shape for nested %s" % clsname)
-            _NESTED_CACHE[key] = r["accepted"][0].tree
+            clean = [a for a in r["accepted"] if not a.failures]
+            _NESTED_CACHE[key] = (clean or r["accepted"])[0].tree
         b = RP.instantiate(_NESTED_CACHE[key], samples, enums, nested, version)
         if tag is not None:
             b = tag.value.to_bytes(3, "big") + b[3:]
@@ -245,7 +249,7 @@ def nested_sample(summ, samples):
     return nested
 
 
-def _native_crosscheck(sess, cname, natives, tier, known, summ):
+def _native_crosscheck(sess, cname, natives, tier, known, summ, prop="C01"):
     """Instantiate accepted shapes with sample leaf values (independent encoder) and run the real
     unpatched codec on those bytes; the outcome must agree with the parametric verdict."""
     from kmip.core import enums
@@ -304,6 +308,8 @@ def _native_crosscheck(sess, cname, natives, tier, known, summ):
             # the symbolic run accepted this shape: the real decoder must accept its instances
             bad.setdefault("%s/accepts" % vn, []).append((a, sn, res))
         for o in nat_fail - {"decode"}:
+            if o not in prop_obligations(prop):
+                continue        # a clause of the other codec property (C01: round trip, C02: well-formedness)
             if o not in sym_fail:
                 bad.setdefault("%s/%s" % (vn, o), []).append((a, sn, res))
         if not nat_fail:
